@@ -10,6 +10,7 @@ pub mod seed;
 pub mod stubs;
 pub mod toy;
 pub mod glue;
+pub mod grammar;
 #[cfg(feature = "real")]
 pub mod real;
 
